@@ -179,9 +179,6 @@ package http2
 //@   trusted
 //@   assigns nothing
 //@   ensures t != nil
-//@ func net.Conn.SetReadDeadline :: c, t -> err
-//@   trusted
-//@   assigns nothing
 //@ func (*serverConn).scheduleHandler :: sc, streamID, rw, req, handler -> err
 //@   trusted
 //@   assigns unrestricted, handlerStarts
